@@ -59,7 +59,9 @@ def bias_conf(rng, name, cvs, kinds):
     if kind == "histogram":
         return "histogram {\n name %s\n colvars %s\n}\n" % (name, names), kind
     if kind == "abf":
-        return "abf {\n name %s\n colvars %s\n fullSamples 2\n integrate off\n}\n" % (name, names), kind
+        # hideJacobian switches a feature on inside the variables; it must go away with the bias
+        hj = " hideJacobian on\n" if rng.rand() < 0.5 else ""
+        return "abf {\n name %s\n colvars %s\n fullSamples 2\n integrate off\n%s}\n" % (name, names, hj), kind
     return "metadynamics {\n name %s\n colvars %s\n hillWeight 0.1\n newHillFrequency 2\n hillWidth 2.0\n useGrids off\n}\n" % (name, names), kind
 
 
@@ -85,7 +87,7 @@ def gen(rng, tier):
     cases = []
     for k in range(n):
         nops = rng.randint(6, 25)
-        lines = ["m.new %d" % NATOMS, "M.noclock"]
+        lines = ["m.new %d" % NATOMS, "M.noclock", "m.opt temp %s" % fbits(300.0)]     # (a temperature: Jacobian terms are not zero)
         if k == 0:
             # (after a variable exists: colvar::init adds a run-time exclusion to the shared table)
             lines.append(cfg(inj_cv("tab", 0, -3.0, 3.0, 0.5) + "harmonic {\n name tabb\n colvars tab\n centers 0.0\n forceConstant 1.0\n}\n"))
@@ -107,9 +109,27 @@ def gen(rng, tier):
         if k % 4 == 1:
             forced = ["cv", "bias_tsf", "bias_plain", "step"] + ["step"] * rng.randint(0, 2) + ["del_first"]
             nops += len(forced)
+        if k % 4 == 2:
+            # directed: an ABF bias that hides the Jacobian force of a distance variable, next to a restraint; the ABF is deleted
+            forced = ["cv_dist", "bias_abfhj", "bias_plain", "step", "step", "del_first"]
+            nops += len(forced)
         for j in range(nops):
             r = rng.rand()
             f = forced.pop(0) if forced else None
+            if f == "cv_dist":
+                name = "v%d" % ncv; ncv += 1
+                conf = ("colvar {\n  name %s\n  width 0.5\n  lowerBoundary 0.0\n  upperBoundary 8.0\n  distance {\n    group1 { atomNumbers 1 2 }\n"
+                        "    group2 { atomNumbers 3 }\n  }\n}\n") % name
+                lines.append(cfg(conf)); cvs[name] = conf; kinds[name] = "distance"; order.append(("cv", name)); oplog.append(("add", "cv", name, conf))
+                lines.append("d.check"); checks.append(len(lines))
+                continue
+            if f == "bias_abfhj":
+                name = "b%d" % nb; nb += 1
+                use = [sorted(cvs)[0]]
+                conf = "abf {\n name %s\n colvars %s\n fullSamples 2\n integrate off\n hideJacobian on\n}\n" % (name, use[0])
+                lines.append(cfg(conf)); biases[name] = (conf, use); order.append(("bias", name)); oplog.append(("add", "bias", name, conf))
+                lines.append("d.check"); checks.append(len(lines))
+                continue
             if f == "cv":
                 r = 0.0
             elif f in ("bias_tsf", "bias_plain"):
@@ -168,7 +188,7 @@ def gen(rng, tier):
         for which in ("old", "new"):
             if which == "new":
                 # the same timeline with only the survivors: same steps, same resets, survivors created at the same points
-                lines += ["m.new %d" % NATOMS, "M.noclock"]
+                lines += ["m.new %d" % NATOMS, "M.noclock", "m.opt temp %s" % fbits(300.0)]
                 alive = set(order)
                 for o in oplog:
                     if o[0] == "add" and (o[1], o[2]) in alive:
@@ -186,7 +206,9 @@ def gen(rng, tier):
             lines.append("d.check"); marks[which].append(len(lines))
         cases.append({"lines": lines, "meta": {"checks": checks, "marks": marks, "survivors": [list(o) for o in order], "ncvs": len(cvs),
                                                 "cvnames": sorted(cvs), "bias_kinds": sorted(biases), "deletions": ndel,
-                                                "orphaned": sorted(c for c in cvs if c in had and not any(c in use for (_, use) in biases.values()))},
+                                                # variables that lost a bias by deletion and are now used only by biases that can sleep (or by none): the listed
+                                                # finding (top-level "active" is lost when the reference count returns to 0) shows whenever nothing awake needs them
+                                                "orphaned": sorted(c for c in cvs if c in had and not any(c in use and "timeStepFactor" not in conf_ for (conf_, use) in biases.values()))},
                       "nontrivial": ndel > 0})
     return cases
 
@@ -209,7 +231,7 @@ def vals(out, ln, tag):
 def oracle(case, out):
     m = case["meta"]; viol = []
     # translator cross-check
-    if "d.tables" in case["lines"][2:6]:
+    if "d.tables" in case["lines"][2:8]:
         got = sorted(tuple(tok_val(t)[1] for t in v) for (ln, tag, occ), v in out.items() if tag == "feat")
         want = sorted(expected_tables())
         if got and got != want:
